@@ -22,7 +22,8 @@ static int check(const char *bytes, size_t n, unsigned budget) {
   char *js = malloc(n + 1);            /* exact size: ASan reports any over-read */
   memcpy(js, bytes, n); js[n] = 0;
   size_t len = strlen(js);
-  jsmntok_t *t = calloc(budget + 1, sizeof(jsmntok_t));
+  /* EXACTLY budget tokens (one byte for budget 0): ASan reports any access to tokens[budget] */
+  jsmntok_t *t = calloc(budget ? budget : 1, sizeof(jsmntok_t));
   jsmn_parser p;
   int ok = 1;
   jsmn_init(&p);
@@ -30,7 +31,7 @@ static int check(const char *bytes, size_t n, unsigned budget) {
   jsmnerr_t r = jsmn_parse(&p, js, t, budget);
   if (ok && !(r == 0 || r == -1 || r == -2 || r == -3)) ok = fail("jsmn_parse result code");
   if (ok && !(p.pos <= len && p.toknext >= 0 && (unsigned)p.toknext <= budget && p.toksuper >= -1 && p.toksuper < p.toknext)) ok = fail("jsmn_parse parser invariant PI");
-  for (int i = 0; ok && i <= (int)budget; i++) {
+  for (int i = 0; ok && i < (int)(budget ? budget : 1); i++) {
     if (i >= p.toknext) {
       if (t[i].type || t[i].start || t[i].end || t[i].size) ok = fail("jsmn_parse touched a token it did not hand out (sentinel)");
     } else {
@@ -48,7 +49,7 @@ static int check(const char *bytes, size_t n, unsigned budget) {
       int delim = (c == '\t' || c == '\r' || c == '\n' || c == ' ' || c == ',' || c == ']' || c == '}' || c == ':');
       if (which == 0 && c != '"') continue;
       if (which == 1 && delim) continue;
-      jsmntok_t *t2 = calloc(budget + 1, sizeof(jsmntok_t));
+      jsmntok_t *t2 = calloc(budget ? budget : 1, sizeof(jsmntok_t));
       jsmn_parser q; q.pos = (unsigned)pos; q.toknext = 0; q.toksuper = -1;
       jsmnerr_t r2 = which == 0 ? jsmn_parse_string(&q, js, t2, budget) : jsmn_parse_primitive(&q, js, t2, budget);
       const char *nm = which == 0 ? "jsmn_parse_string" : "jsmn_parse_primitive";
@@ -56,7 +57,7 @@ static int check(const char *bytes, size_t n, unsigned budget) {
       if (!(q.pos <= len && q.toknext >= 0 && (unsigned)q.toknext <= budget && q.toksuper == -1)) { snprintf(buf, sizeof buf, "%s parser invariant", nm); ok = fail(buf); }
       else if (r2 != JSMN_SUCCESS) {
         if (!(q.pos == pos && q.toknext == 0)) { snprintf(buf, sizeof buf, "%s failure does not restore pos/toknext", nm); ok = fail(buf); }
-        if (t2[0].type || t2[0].start || t2[0].end || t2[0].size) { snprintf(buf, sizeof buf, "%s failure touched the next token", nm); ok = fail(buf); }
+        if ((t2[0].type || t2[0].start || t2[0].end || t2[0].size)) { snprintf(buf, sizeof buf, "%s failure touched the next token", nm); ok = fail(buf); }
         if (r2 == JSMN_ERROR_NOMEM && budget != 0) { snprintf(buf, sizeof buf, "%s NOMEM with free tokens", nm); ok = fail(buf); }
         if (!(r2 == -1 || r2 == -2 || (which == 0 && r2 == -3))) { snprintf(buf, sizeof buf, "%s result code", nm); ok = fail(buf); }
       } else if (which == 0) {
